@@ -33,7 +33,8 @@ BOUNDS = {
              "binade (mantissas symbolic, exponent E in {-3,0,10})",
     "thorough": "Z,Y,X in 1..5 (25 sampled shapes + all <=3); majority blocks up to 18 voxels with a 120 s query budget",
 }
-OUTSIDE = ["uint64 averaging above 2^53 (float64 work type cannot hold the values: documented NumPy limitation)",
+OUTSIDE = ["uint64 averaging: the exact-mean clause above 2^53 (float64 work type cannot hold the values: documented NumPy limitation); "
+           "the no-wrap / between-min-and-max clause is decided for uint64 voxels that are each below 2^50 or equal to 2^64-1",
            "float32 averaging with inputs spanning several binades (sums not exactly representable in float64)",
            "non-integer outside values"]
 
@@ -55,6 +56,12 @@ def configs(tier, seed):
                 continue
             out.append(dict(harness="average", dtype=dts[n % 3], C=1 + (n % 5 == 0), shape=list(shp), factors=list(f),
                             outside=("sym" if n % 2 else None), auto=(n % 4 == 1), cost=1 + shp[0] * shp[1] * shp[2] // 9))
+    # uint64 at the type limit: every voxel is either below 2^50 or the type maximum; the float64 work type cannot hold
+    # 2^64-1, so only the "no overflow / wrap, between min and max" clause is decided there
+    for shp, f in (((1, 1, 2), (2, 1, 1)), ((1, 2, 1), (1, 2, 1)), ((1, 2, 2), (2, 2, 1)), ((2, 1, 3), (2, 1, 2)), ((1, 1, 1), (2, 2, 2))) \
+            + ((((2, 2, 2), (2, 2, 2)), ((1, 3, 3), (2, 2, 1))) if tier == "thorough" else ()):
+        out.append(dict(harness="average", dtype="uint64", C=1, shape=list(shp), factors=list(f), outside=None, auto=(shp[2] == 2),
+                        lim=True, cost=3, wall=900))
     mf = [(1, 1, 1), (2, 2, 2), (2, 1, 1), (1, 2, 2), (3, 1, 2), (2, 3, 1), (1, 1, 3), (3, 3, 3)]
     for shp in shapes:
         for j, f in enumerate(mf):
@@ -102,6 +109,9 @@ def H_average(ctx, cfg):
     C, (Z, Y, X), (fx, fy, fz), dtype = cfg["C"], cfg["shape"], cfg["factors"], cfg["dtype"]
     chunk = _in_voxels(ctx, C, (Z, Y, X), dtype, True)
     info = real_np.iinfo(dtype)
+    if cfg.get("lim"):
+        for x in chunk.a.ravel():
+            ctx.assume(z3.Or(x.v < (1 << 50), x.v == info.max))
     if cfg["outside"] == "sym":
         ov = z3.Int("outside")
         ctx.assume(z3.And(ov >= 0, ov <= 255))
@@ -150,7 +160,8 @@ def H_average(ctx, cfg):
                         lo = z3.If(t < lo, t, lo)
                         hi = z3.If(t > hi, t, hi)
                     rng.append(z3.And(got >= lo, got <= hi, got >= info.min, got <= info.max))
-    ctx.prove(z3.And(eqs), "exact-mean-rounded-half-even")
+    if not cfg.get("lim"):
+        ctx.prove(z3.And(eqs), "exact-mean-rounded-half-even")
     ctx.prove(z3.And(rng), "between-min-and-max-of-contributors")
 
 
@@ -398,6 +409,10 @@ def replay(cfg, cex):
                                     blk.append(builtins.int(inp["outside"]) if cfg["outside"] == "sym"
                                                else builtins.int(chunk[c, min(z, Z - 1), min(y, Y - 1), min(x, X - 1)]))
                     got = builtins.int(res[c, zo, yo, xo])
+                    if h == "average" and cfg.get("lim"):
+                        if not min(blk) <= got <= max(blk):
+                            return True, f"average: block {blk} -> {got}, outside the range of its contributors"
+                        continue
                     if h == "average":
                         m = Fraction(sum(blk), len(blk))
                         fl = m.numerator // m.denominator
